@@ -308,3 +308,18 @@ class Evaluate(Contract):
     return dict(outcome='reproduced' if executed else 'not-reproduced',
                 detail=f'permission={explicit!r} under scope {scope!r}: effective permission per statement = {eff!r}; '
                        f'programs executed although their permission is not granted: {executed!r}')
+
+
+# ---------------------------------------------------------------------------
+# "An outer permission scope can only be narrowed, never widened, by inner
+# ones": the scope manager itself is under contract in contracts/c17_scopes.py
+# (inside a scope the effective permission is the outer one whenever there is
+# an outer one -- which implies "never widened" -- and the store is restored
+# exactly).  The same contract is an obligation of this property.
+
+from contracts.c17_scopes import Permission as _PermissionScope   # noqa: E402  pylint: disable=wrong-import-position
+
+
+@register
+class PermissionScopeNeverWidens(_PermissionScope):
+  prop = 'C19'
